@@ -284,3 +284,49 @@ package unionstore
 //@   ensures 1 <= len(arg1) && len(arg1) <= 5 && arg1[0] == kv.SetKeyLocked && (len(arg1) < 2 || arg1[1] != kv.DelKeyLocked) && (len(arg1) < 3 || arg1[2] != kv.DelKeyLocked) &&
 //@       (len(arg1) < 4 || arg1[3] != kv.DelKeyLocked) && (len(arg1) < 5 || arg1[4] != kv.DelKeyLocked) ==> lockedIn(recv.fver, arg0)
 //@   ensures forall k2 []byte :: k2 != arg0 ==> lockedIn(recv.fver, k2) == lockedIn(old(recv.fver), k2)
+
+// (assumed of the two sources: a new iterator starts at the beginning of a sequence that is strictly monotone in its
+// direction; the buffer's and the snapshot's iterators are different objects - isBufferIt tells them apart)
+//@ spec func isBufferIt(it Iterator) bool
+//@ func (MemBuffer) Iter
+//@   trusted
+//@   bytes: key
+//@   modifies nothing
+//@   ensures result1 == nil ==> result0 != nil && result0.pos == 0 && ordered(result0, false) && isBufferIt(result0)
+//@ func (MemBuffer) IterReverse
+//@   trusted
+//@   bytes: key
+//@   modifies nothing
+//@   ensures result1 == nil ==> result0 != nil && result0.pos == 0 && ordered(result0, true) && isBufferIt(result0)
+//@ func (uSnapshot) Iter
+//@   trusted
+//@   bytes: key
+//@   modifies nothing
+//@   ensures result1 == nil ==> result0 != nil && result0.pos == 0 && ordered(result0, false) && !isBufferIt(result0)
+//@ func (uSnapshot) IterReverse
+//@   trusted
+//@   bytes: key
+//@   modifies nothing
+//@   ensures result1 == nil ==> result0 != nil && result0.pos == 0 && ordered(result0, true) && !isBufferIt(result0)
+
+// A scan of the union store is always the union iterator over the buffer's iterator and the snapshot's iterator for the
+// same bounds and direction - whatever the buffer's state (writes that sit in an open staging level do not mark it dirty,
+// and must be seen all the same).
+//@ func (*KVUnionStore) Iter
+//@   prop C07
+//@   bytes: key
+//@   may-panic
+//@   opaque-callee NewUnionIter
+//@   at call(Iter#1) assert bounds: arg0 == k && arg1 == upperBound
+//@   at call(Iter#2) assert bounds: arg0 == k && arg1 == upperBound
+//@   at call(NewUnionIter) assert merged: arg_dirtyIt == bufferIt && arg_snapshotIt == retrieverIt && !arg_reverse
+//@   ensures union: result1 == nil ==> typeIs(result0, *UnionIter)
+//@ func (*KVUnionStore) IterReverse
+//@   prop C07
+//@   bytes: key
+//@   may-panic
+//@   opaque-callee NewUnionIter
+//@   at call(IterReverse#1) assert bounds: arg0 == k && arg1 == lowerBound
+//@   at call(IterReverse#2) assert bounds: arg0 == k && arg1 == lowerBound
+//@   at call(NewUnionIter) assert merged: arg_dirtyIt == bufferIt && arg_snapshotIt == retrieverIt && arg_reverse
+//@   ensures union: result1 == nil ==> typeIs(result0, *UnionIter)
